@@ -31,13 +31,15 @@ pub fn fnv(s: &str) -> u64 {
 pub struct Outcome {
     /// canonical implementation output, compared with the Lean model's output (Null = not compared)
     pub imp: Value,
+    /// data for the model driver that is not itself compared (e.g. the rule-annotated tree produced by the real setter)
+    pub aux: Value,
     /// property-level oracle failures (independent of the model): key identifies site + failure class
     pub oracle: Vec<Value>,
     /// distribution tags for the evidence
     pub tags: Vec<String>,
 }
 impl Outcome {
-    pub fn new() -> Self { Outcome { imp: Value::Null, oracle: vec![], tags: vec![] } }
+    pub fn new() -> Self { Outcome { imp: Value::Null, aux: Value::Null, oracle: vec![], tags: vec![] } }
     pub fn fail(&mut self, key: &str, what: String) { self.oracle.push(json!({"key": key, "what": what})); }
     pub fn tag(&mut self, t: &str) { self.tags.push(t.to_string()); }
 }
